@@ -244,13 +244,14 @@ def ocaml_build(pid, model_vos):
     low = pid.lower()
     d = os.path.join(WORK, "ocaml", low)
     os.makedirs(d, exist_ok=True)
-    rc, out = coq_make(["base/ExtractBase.vo", "gen/Consts.vo"] + list(model_vos))
-    if rc != 0:
-        return None, "model does not compile:\n" + out[-3000:]
-    rc, out = sh(["coqc", "-Q", COQ, "M", "-noglob", "-o", os.path.join(d, "Extract%s.vo" % pid),
-                  os.path.join(COQ, "extract", "Extract%s.v" % pid)], cwd=d, timeout=900)
-    if rc != 0:
-        return None, "extraction failed:\n" + out[-3000:]
+    with Lock("coq"):   # Consts.v may be regenerated by a concurrent check: make + extraction are one critical section
+        rc, out = coq_make(["base/ExtractBase.vo", "gen/Consts.vo"] + list(model_vos))
+        if rc != 0:
+            return None, "model does not compile:\n" + out[-3000:]
+        rc, out = sh(["coqc", "-Q", COQ, "M", "-noglob", "-o", os.path.join(d, "Extract%s.vo" % pid),
+                      os.path.join(COQ, "extract", "Extract%s.v" % pid)], cwd=d, timeout=900)
+        if rc != 0:
+            return None, "extraction failed:\n" + out[-3000:]
     shutil.copy(os.path.join(VERIF, "ocaml", "common.ml"), os.path.join(d, "common.ml"))
     shutil.copy(os.path.join(VERIF, "ocaml", low + "_run.ml"), os.path.join(d, "run.ml"))
     binp = os.path.join(BIN, low + "_model")
